@@ -61,14 +61,15 @@ Target(ev) == Lang(G, StartForm(G), ev.d)
 C04Clause(ev) ==
     IF ev.e # "impl_set" THEN "ok"
     ELSE IF ev.errors # <<>> THEN "C04:creation-error"
+    \* an INCOMPLETE set (the decision tree exceeded the driver's budget) can only show that something invalid is reachable
     ELSE IF ev.decider = "grow" THEN
          (IF Impl(ev) \ Target(ev) # {} THEN "C04:invalid-program-reachable"
-          ELSE IF Target(ev) \ Impl(ev) # {} THEN "C04:valid-program-unreachable" ELSE "ok")
+          ELSE IF ev.complete /\ Target(ev) \ Impl(ev) # {} THEN "C04:valid-program-unreachable" ELSE "ok")
     ELSE IF ev.decider = "pigrow" THEN (IF Impl(ev) \subseteq Target(ev) THEN "ok" ELSE "C04:pigrow-leaves-language")
     ELSE IF ev.decider = "full" THEN
          (IF ~FullDefined THEN "ok"
           ELSE IF Impl(ev) \ FullLang(ev.d) # {} THEN "C04:full-not-full"
-          ELSE IF FullLang(ev.d) \ Impl(ev) # {} THEN "C04:full-program-unreachable" ELSE "ok")
+          ELSE IF ev.complete /\ FullLang(ev.d) \ Impl(ev) # {} THEN "C04:full-program-unreachable" ELSE "ok")
     ELSE "ok"
 
 C04Attrs(ev) ==
